@@ -633,6 +633,10 @@ func depSliceOfLevel(ctx *dsl.VarFilterContext) bool {
 	return types.Identical(ctx.Type, types.NewSlice(ctx.GetType("` + memDepPath + `.Level")))
 }
 
+func depIsError(ctx *dsl.VarFilterContext) bool {
+	return types.Implements(ctx.Type, ctx.GetInterface("error"))
+}
+
 func midIsSink(ctx *dsl.VarFilterContext) bool {
 	return types.Implements(ctx.Type, ctx.GetInterface("` + memMidPath + `.Sink"))
 }
@@ -666,6 +670,8 @@ func c08dep(m dsl.Matcher) {
 	m.Match("mvuse5($x)").Where(m["x"].Filter(depLevelIsString)).Report("dep.Level is a string (seen at $x)")
 	m.Match("mvuse6($x)").Where(m["x"].Filter(depSameSizeAsConf)).Report("$x is as big as a dep.Conf")
 	m.Match("mvuse7($x)").Where(m["x"].Filter(depSliceOfLevel)).Report("$x is a []dep.Level")
+	m.Match("mvuse8($x)").Where(m["x"].Filter(depIsError)).Report("$x is an error (custom filter)")
+	m.Match("mvuse9($x)").Where(m["x"].Type.Implements("error")).Report("$x is an error (Type.Implements)")
 	m.Match("miduse1($x)").Where(m["x"].Filter(midIsSink)).Report("$x is a mid.Sink")
 	m.Match("miduse2($x)").Where(m["x"].Filter(midWrapHolds)).Report("mid.Wrap holds a $x")
 	m.Match("mvdo($x)").Where(m["x"].Text.Matches("^v[A-Z]") && !m["x"].Text.Matches("Int$")).Do(depDescribe)
